@@ -176,27 +176,25 @@ func siblingFiles(name string) map[string]string {
 	}
 }
 
-func checkC08(c *core.Ctx) error {
-	bin, err := gd.Build(c)
-	if err != nil {
-		return err
-	}
+// exportDetScenarios runs Determinism.tla and returns its scenarios in canonical form, and which of
+// them have two resolutions of the map-order choice that disagree.
+func exportDetScenarios(c *core.Ctx) (map[string][]detCall, map[string]bool, *tlc.Result, error) {
 	outp := filepath.Join(c.Work, "det.csv")
 	maxCalls := 3
 	res, err := tlc.Run(tlc.Opts{SpecDirs: []string{filepath.Join(c.Verif, "spec", "gen")}, Module: "Determinism", Config: "run.cfg",
 		Files:   map[string]string{"run.cfg": fmt.Sprintf("SPECIFICATION Spec\nCONSTANTS MaxCallsD = %d\nINVARIANT Export\nCHECK_DEADLOCK FALSE\n", maxCalls)},
 		Workers: 1, Timeout: 20 * time.Minute, Scratch: c.Work, Env: map[string]string{"VERIF_OUT": outp}})
 	if err != nil {
-		return err
+		return nil, nil, nil, err
 	}
 	if res.Violation {
-		return fmt.Errorf("Determinism.tla export failed: %s", res.ErrText)
+		return nil, nil, nil, fmt.Errorf("Determinism.tla export failed: %s", res.ErrText)
 	}
-	// scenarios (canonical), ambiguous per the model if some pair of resolutions differs
 	f, err := os.Open(outp)
 	if err != nil {
-		return err
+		return nil, nil, nil, err
 	}
+	defer f.Close()
 	modelAmb := map[string]bool{}
 	scen := map[string][]detCall{}
 	sc := bufio.NewScanner(f)
@@ -208,14 +206,25 @@ func checkC08(c *core.Ctx) error {
 		}
 		var d detCase
 		if err := json.Unmarshal([]byte(inner), &d); err != nil {
-			return err
+			return nil, nil, nil, err
 		}
 		cs := detCanon(d.Calls)
 		k := detString(cs)
 		scen[k] = cs
 		modelAmb[k] = modelAmb[k] || d.Differ
 	}
-	f.Close()
+	return scen, modelAmb, res, nil
+}
+
+func checkC08(c *core.Ctx) error {
+	bin, err := gd.Build(c)
+	if err != nil {
+		return err
+	}
+	scen, modelAmb, res, err := exportDetScenarios(c)
+	if err != nil {
+		return err
+	}
 	keys := make([]string, 0, len(scen))
 	for k := range scen {
 		keys = append(keys, k)
